@@ -174,6 +174,10 @@ def r2(ctx):
     for k in writers:
         if k in (NEXT, SETMASK):
             continue
+        fnk = f.fns.get(k) or {}
+        callers = sorted(c_ for c_, b_ in f.bodies.items() if '::{' not in c_ and any(t_.get('callee') == k for _, t_ in b_.calls()))
+        if not fnk.get('pub') and 'impl_trait' not in fnk and callers and all(c_ in (NEXT, SETMASK) for c_ in callers):
+            continue          # a private part of next() / of the partition itself (e.g. `fn next_promotion(&mut self)`)
         n += 1
         body = f.body(k)
         from ..cfg import CFG
@@ -225,7 +229,8 @@ def r2(ctx):
                                                                                        sh(fs.get('index', 'unchanged'), 60)), where(s.body))
         # partition: second loop swaps a used entry j > i into slot i
         swaps = 0
-        for l in for_loops(s):
+        _loops = for_loops(s)
+        for l in _loops:
             J = norm(l['elem'])
             stores = [st for st in s.stores if st['blk'] in l['blocks'] and st['target'][1] == ('p', 1) and
                       st['target'][2][:1] == (('f', 'moves'),) and len(st['target'][2]) == 2]
@@ -238,15 +243,33 @@ def r2(ctx):
                             c = bb(inline_private(ctx, g['cond']), ctx.an())      # e.g. a private `fn is_used(&self, i) -> bool`
                         if c[0] in ('bbne', 'bbeq') and ('bb0',) in c[1:]:
                             gd = True
+            # `self.moves.swap(i, j)` is the same exchange
+            swapcall = [c for c in s.calls if c['blk'] in l['blocks'] and c['callee'] and c['callee'].endswith('::swap') and c['args'] and
+                        any(isinstance(x, tuple) and x == ('f', 'moves') for a_ in c['args'][:1] for x in (a_[2] if a_[0] == 'ref' else ()))]
+            if not swapcall:
+                swapcall = [c for c in s.calls if c['blk'] in l['blocks'] and c['callee'] and c['callee'].endswith('::swap') and
+                            'moves' in sh(c['argvals'][0] if c['argvals'] else '', 200)]
+            if not stores and swapcall:
+                for c in swapcall:
+                    for g in guards(s, c['blk'], transitive=False):
+                        if g['cond'] is not None:
+                            cnd = bb(g['cond'], ctx.an())
+                            if cnd[0] == 'call' and cnd[1].startswith('movegen::movegen::'):
+                                cnd = bb(inline_private(ctx, g['cond']), ctx.an())
+                            if cnd[0] in ('bbne', 'bbeq') and ('bb0',) in cnd[1:]:
+                                gd = True
+                if gd:
+                    swaps += 1
+                    l['_swap'] = True
             if len(stores) == 2 and gd:
                 swaps += 1
-        swap_loops = [l for l in for_loops(s) if len([st for st in s.stores if st['blk'] in l['blocks'] and st['target'][1] == ('p', 1) and
-                                                        st['target'][2][:1] == (('f', 'moves'),) and len(st['target'][2]) == 2]) == 2]
+                l['_swap'] = True
+        swap_loops = [l for l in _loops if l.get('_swap')]
         if len(swap_loops) == 1:
             partition_always(ctx, R, s, swap_loops[0]['header'])
         if swaps == 1:
             ctx.ok(R, 'partition: inside the second scan a used entry is exchanged (two stores) into the first unused slot', where(s.body))
-        elif not for_loops(s):
+        elif not _loops:
             ctx.inconclusive(R, 'set_iterator_mask: the partition is not written with `for` loops (not analysed)')
         else:
             ctx.violation(R, SETMASK + ':swap', 'partition loop does not exchange used entries forward (found %d swap loops)' % swaps, where(s.body))
@@ -394,6 +417,14 @@ def r4(ctx):
         return
     w = where(s.body)
     an = ctx.an()
+    facts = ctx.facts()
+    helpers = sorted({c['callee'] for c in s.calls if c['callee'] in facts.bodies and not (facts.fns.get(c['callee']) or {}).get('pub', True)
+                      and any((facts.fns.get(c['callee']) or {}).get('inputs', [''])[:1] == [t_] for t_ in ('&mut movegen::movegen::MoveGen',))})
+    if helpers:
+        # part of next() lives in a private `&mut self` helper (`fn next_promotion(&mut self) -> ChessMove`): the decision tree
+        # and the state update are then spread over two bodies, which this rule does not join
+        ctx.inconclusive(R, 'next() delegates part of its state update to the private helper %s: the split form is not analysed' % helpers[0])
+        return
     ret = bb(s.ret, an)
     IDX = ('field', SELF, 'index')
     E = entry(IDX)
